@@ -23,6 +23,8 @@ EXPLANATION = (
     "operand are then one object. R18.4: the decompositions that Path(x), + and == read (segments()) save and restore every"
     " field of their shape they overwrite on every exit (the rule of C06 R06.4 under this property: an operand must come "
     "back unchanged). Not decided: arbitrary mutation histories (but without a shared edge no history can alias)."
+    ' R18.5: in every property_by_object (the copy constructors) a conditional over a field of the source'
+    ' compares with None; a bare truth test (which drops 0, 0.0 and empty values) is a finding.'
 )
 TECHNIQUE = (
     "static analysis (no execution): ownership/aliasing analysis - copy constructors per mutable field kind, element-wise copy recognition, operand write-sets and returned-operand lint for non-in-place operators, adoption of operand objects"
